@@ -68,7 +68,8 @@ def replay(ctx, path):
             args += ["-groups", det["group"]]
     ctx.seed = r.get("seed", ctx.seed)
     ctx.tier = r.get("tier", ctx.tier)
-    ctx.run_vh(r["driver"], args)
+    binary = ctx.build(tags=r.get("tags", "verif"), race=bool(r.get("race")), pkg=r.get("pkg", "./cmd/vh"))
+    ctx.run_vh(r["driver"], args, binary=binary)
     hit = [v for v in ctx.violations if v["key"] == r["key"]]
     if hit:
         print("VIOLATION property=%s replay=%s" % (ctx.prop, path))
